@@ -18,6 +18,17 @@ CHECKS = {
              "contract (stub); element-wise lifting to arrays (object arrays of length 2 executed). Trusted: CPython, z3, "
              "pgv.sx/pgv.lift. Known findings: same-representation calls with an omitted target unit return the value.",
         technique="symbolic execution of the real functions + z3 (contracts vs independent SI spec)"),
+    'C02': dict(
+        category='proof',
+        text="Representation invariant RI (labels accepted by the real constructor; data = SI ghost / factor(labels)) is proved "
+             "to be preserved by convert_pressure/convert_loading/convert_material/convert_temperature for every start "
+             "configuration x argument tuple (omitted, repeated, impossible targets included) with symbolic data; refusals are "
+             "proved to leave every field unchanged; convert() is verified modularly against the three contracts. Induction "
+             "over histories follows from the preserved invariant.",
+        design_ref='§3 C02, Appendix A.2',
+        note="Assumes: DataFrame column store contract (ColumnStore stub, 2 symbolic rows), adsorbate/material contract stubs, "
+             "real arithmetic for floats, induction over histories as meta-argument. c_* bodies are inlined (real, lifted).",
+        technique="symbolic execution of the real methods on object.__new__ instances + z3; invariant preservation"),
 }
 
 NOT_YET = {
